@@ -423,7 +423,7 @@ func genPacketSizes(r *hx.Rng, thr int) []int {
 	return s
 }
 
-func connPair(o *hx.Out, r *hx.Rng, thr int, both bool) {
+func connPair(o *hx.Out, r *hx.Rng, thr int, both bool) (ok bool) {
 	key := r.Bytes(16)
 	blk, _ := aes.NewCipher(key)
 	a, b := net.Pipe()
@@ -434,7 +434,7 @@ func connPair(o *hx.Out, r *hx.Rng, thr int, both bool) {
 	cb.SetCipher(CFB8.NewCFB8Encrypt(blk, key), CFB8.NewCFB8Decrypt(blk, key))
 	ca.SetThreshold(thr)
 	cb.SetThreshold(thr)
-	deadline := time.Now().Add(20 * time.Second)
+	deadline := time.Now().Add(6 * time.Second)
 	a.SetDeadline(deadline)
 	b.SetDeadline(deadline)
 
@@ -459,10 +459,16 @@ func connPair(o *hx.Out, r *hx.Rng, thr int, both bool) {
 	desc := fmt.Sprintf("conn thr=%d both=%v ab=%d ba=%d", thr, both, len(ab), len(ba))
 	var wg sync.WaitGroup
 	var mu sync.Mutex
+	failed := false
 	fail := func(class, f string, x ...any) {
 		mu.Lock()
-		o.Fail(class, "%s: %s", desc, fmt.Sprintf(f, x...))
+		if !failed { // one report per run; later errors are consequences of closing the pipe
+			o.Fail(class, "%s: %s", desc, fmt.Sprintf(f, x...))
+		}
+		failed = true
 		mu.Unlock()
+		a.Close() // unblock the peer goroutines
+		b.Close()
 	}
 	send := func(c *mcnet.Conn, ps []pk.Packet) {
 		defer wg.Done()
@@ -510,6 +516,10 @@ func connPair(o *hx.Out, r *hx.Rng, thr int, both bool) {
 		}
 		return buf.Bytes()
 	}
+	if failed {
+		o.Eval("conn", len(ab) >= 2, desc+" (failed)")
+		return false
+	}
 	if w := refCFB8(blk, key, true, ta.wire); !bytes.Equal(w, plain(ab)) {
 		fail("C10.conn.wire", "a->b wire is not the CFB8 image of the frames (%d vs %d bytes)", len(w), len(plain(ab)))
 	}
@@ -517,6 +527,7 @@ func connPair(o *hx.Out, r *hx.Rng, thr int, both bool) {
 		fail("C10.conn.wire", "b->a wire is not the CFB8 image of the frames (%d vs %d bytes)", len(w), len(plain(ba)))
 	}
 	o.Eval("conn", len(ab) >= 2, desc+fmt.Sprintf(" sizes=%d.. wire=%d", len(ab[0].Data), len(ta.wire)))
+	return !failed
 }
 
 // ---------------------------------------------------------------- main
@@ -612,8 +623,15 @@ func main() {
 
 	// encrypted connections
 	thrs := []int{-1, 0, 1, 16, 64, 256, 1024}
+	connFailed := 0
 	for i := 0; i < o.N(42, 6); i++ {
-		connPair(o, r, thrs[i%len(thrs)], i%2 == 0)
+		if !connPair(o, r, thrs[i%len(thrs)], i%2 == 0) {
+			connFailed++
+		}
+		if connFailed >= 3 { // a broken stream makes a reader wait for its deadline; three reports are enough
+			o.Note("Conn runs stopped after %d failing runs", connFailed)
+			break
+		}
 	}
 	o.Note("partially overlapping dst/src (excluded by the cipher.Stream contract) is not generated")
 }
